@@ -18,6 +18,8 @@ type Decompressor struct {
 	cr     *progress.CountingReader
 	dec    *zstd.Decoder
 	reader io.Reader // LimitReader over the decoder output
+	size   int64     // uncompressed payload size announced by the header
+	err    error     // sticky error, set when the stream ended early
 
 	nRx int64
 	nTx int64
@@ -36,6 +38,9 @@ func (d *Decompressor) Read(p []byte) (nn int, err error) {
 	defer func() {
 		d.nTx += int64(nn)
 	}()
+	if d.err != nil {
+		return 0, d.err
+	}
 	if d.cr == nil {
 		return 0, io.EOF
 	}
@@ -43,9 +48,15 @@ func (d *Decompressor) Read(p []byte) (nn int, err error) {
 		// Read the 8-byte header to learn the uncompressed payload size.
 		var hdr [8]byte
 		if _, err := io.ReadFull(d.cr, hdr[:]); err != nil {
+			if err == io.EOF {
+				// The Compressor always writes the header, so a stream without
+				// a single byte was cut short, it is not an empty payload.
+				err = io.ErrUnexpectedEOF
+			}
 			return 0, err
 		}
 		uncompressedSize := int64(binary.BigEndian.Uint64(hdr[:]))
+		d.size = uncompressedSize
 
 		d.dec, err = zstd.NewReader(d.cr, zstd.WithDecoderConcurrency(1))
 		if err != nil {
@@ -62,9 +73,15 @@ func (d *Decompressor) Read(p []byte) (nn int, err error) {
 
 	if err == io.EOF {
 		d.dec.Close()
-		d.cr = nil
 		d.dec = nil
 		d.reader = nil
+		if d.nRx != d.size {
+			// The compressed stream ended before the announced number of
+			// bytes was delivered (e.g. it was cut right after the header).
+			d.err = io.ErrUnexpectedEOF
+			return n, d.err
+		}
+		d.cr = nil
 	}
 	return n, err
 }
